@@ -122,6 +122,11 @@ def run(ctx):
         rgx.violate("NodeTag", "no NodeTag arm was compared (anchor lost)")
     rgx.require(27, "arms")
 
+    # ---- the optimizer's rewrite of `(!(s1|..) ~ ANY)*` into Skip<..> keeps the language only if skip_until looks no further than the
+    #      unoptimized loop would: C08's bound rule on Input's methods (seed C20-8: `get(from..)` in the default skip_until)
+    from . import c08
+    ctx.adopt(c08.run, {"R08-BOUND": "R20-SKIPBOUND"})
+
     # ---- emitted names resolve / output compiles (rustc as the decision procedure on fixtures)
     rn = ctx.rule("R20-NAMES", "every name the templates emit resolves: derive output of one rule per operator form compiles with the optimizer on and off")
     rm = ctx.rule("R20-MATRIX", "recursive grammars still compile when boxing is reduced, and under every option combination")
